@@ -97,6 +97,9 @@ def run_c09(c):
                                      "K": [float(v) for v in gfun(np.log((st - np.arange(0, st)) * 3600.0 / ts))]}
             out["late"] = late
             out["year_q_W"] = year
+            out["raw_year_W"] = list(ghe._verif_loads)
+            # what the implementation handed to the superposition at a few steps (before the sign change: extraction positive)
+            out["q_at"] = {str(st): -captured["q"][st - 1] for st in c.get("late_steps", []) if 1 <= st <= n}
     # the property's raw inputs: field loads in W at each step, hours
     if method == TimestepType.HYBRID:
         out["raw_q_W"] = [float(x) * 1000.0 for x in ghe.hybrid_load.load[2:2 + nmax]]
